@@ -557,6 +557,8 @@ pub fn generate(pop: Pop, seed: u64, run: u64) -> Trace {
         threads: vec![ops],
         extra,
         schedule: Vec::new(),
+        sched: None,
+        prologue: Vec::new(),
         callback_faults,
         origin: Some(Origin {
             seed,
